@@ -11,6 +11,7 @@ unchanged and may write a context key (what a member does to the batch is its ow
 -/
 import KDVerif.Lemmas.CollatePayload
 import KDVerif.Lemmas.CollatePad
+import KDVerif.Lemmas.C18Extra
 
 namespace KDVerif.C18
 open KDVerif.Collate
@@ -265,5 +266,485 @@ theorem direct_with_ctx (s0 : Sample) (ss : List Sample) (cols : List Col) (c : 
 
 example : callImpl true [.pad] [⟨[.seq [1, 2], .scal 2], [(5, 50)]⟩, ⟨[.seq [3], .scal 1], [(5, 51)]⟩] =
     .ok ⟨true, .collated 0 [.rows [[1, 2], [3, 0]], .scalars [2, 1]], [(5, .col [50, 51])], [.dcCtx]⟩ := by rfl
+
+/-! ## Arbitrary member lists (probes and `PadSequencesCollator` members)
+
+The theorems above assume that every member is a probe. The theorems below hold for every member list. They rest on
+`c18x_callImpl_iff_spec` (Lemmas/C18Extra.lean): a successful `callImpl rc ms ss` is exactly `c18x_spec rc ms ss`, a
+closed form written over the split of `ms` into its leading `None` members and the rest, without the loop's flags.
+Vocabulary: `c18x_acceptedModes l` = "`l` is `None*`, optionally followed by one `before`/`after` and then `before*`";
+`c18x_memSkel t l` = one `mem t` per probe of `l` (a padding collator leaves no event in the trace);
+`c18x_writeKey c m` = `ctx[key] = value` of member `m` on the batched context `c`. -/
+
+/-- **`_call_impl` in closed form.** A run succeeds with result `r` iff the closed form `c18x_spec` gives `r`: collate the
+    contexts (iff return_ctx and there is a member); apply the padding collator as often as it occurs among the leading
+    `None` members; if a member asks for collation, default-collate once and require all later members to be `before`;
+    the context is the merged one after every member's write; the trace lists, per probe, how often the batch it sees
+    was collated (0 before the pivot, 1 after) and the context keys it is handed. -/
+theorem call_impl_closed_form (rc : Bool) (ms : List Member) (ss : List Sample) (r : Result) :
+    callImpl rc ms ss = .ok r ↔ c18x_spec rc ms ss = .ok r := c18x_callImpl_iff_spec rc ms ss r
+
+example : c18x_spec true [.probe .none (some 3), .pad, .probe .after none, .probe .before (some 4)]
+    [⟨[.seq [1, 2], .scal 2], [(5, 50)]⟩, ⟨[.seq [3], .scal 1], [(5, 51)]⟩] =
+    .ok ⟨true, .collated 1 [.rows [[1, 2], [3, 0]], .scalars [2, 1]], [(5, .col [50, 51]), (3, .one (-3)), (4, .one (-4))],
+      [.dcCtx, .member 0 [5], .member 0 [5, 3], .dc, .member 1 [5, 3]]⟩ := by rfl
+
+/-- **Accepted orders (clause "all orders … that the constructor accepts"), acceptance iff.** `_call_impl` runs through
+    iff (a) the mode list is `None*` then nothing or one `before`/`after` followed by `before*`, (b) there is at most one
+    padding collator (its output is not a list of samples any more, so a second one raises), and (c) the torch calls the
+    run makes succeed: collating the contexts (with return_ctx and at least one member), `PadSequencesCollator.collate`
+    on the items (if there is one), `default_collate` on the items (if no padding collator ran and some member asks for
+    collation). No hypothesis. -/
+theorem accepted_orders_iff (rc : Bool) (ms : List Member) (ss : List Sample) :
+    (∃ r, callImpl rc ms ss = .ok r) ↔
+      c18x_acceptedModes (modesOf ms) = true ∧ ms.count .pad ≤ 1 ∧
+      (rc = true → ms ≠ [] → ∃ c, mergeCtx (ss.map Sample.ctx) = .ok c) ∧
+      (.pad ∈ ms → ∃ cols, padItems (ss.map Sample.items) = .ok cols) ∧
+      (.pad ∉ ms → (∃ m ∈ ms, m.mode ≠ .none) → ∃ cols, collateItems (ss.map Sample.items) = .ok cols) := by
+  rw [c18x_ok_iff]
+  have hctx : c18x_hasCtx rc ms = true ↔ (rc = true ∧ ms ≠ []) := by
+    cases rc <;> cases ms <;> simp [c18x_hasCtx]
+  have hmem : Member.pad ∈ ms ↔ 0 < ms.count .pad := List.count_pos_iff.symm
+  have htail : c18x_tail ms ≠ [] ↔ ∃ m ∈ ms, m.mode ≠ .none := by
+    rw [Ne, c18x_tail_nil_iff]
+    simp
+  constructor
+  · rintro ⟨h1, h2, h3, h4, h5⟩
+    refine ⟨h1, h2, fun a b => h3 (hctx.mpr ⟨a, b⟩), fun hp => h4 (by have := hmem.mp hp; omega), fun hp hn => ?_⟩
+    exact h5 (by have := mt hmem.mpr hp; omega) (htail.mpr hn)
+  · rintro ⟨h1, h2, h3, h4, h5⟩
+    refine ⟨h1, h2, fun a => h3 (hctx.mp a).1 (hctx.mp a).2, fun hp => h4 (hmem.mpr (by omega)), fun hp hn => ?_⟩
+    exact h5 (fun hm => by have := hmem.mp hm; omega) (htail.mp hn)
+
+/-- the accepted mode lists are exactly the three shapes of `default_collate_at_requested_position` -/
+theorem accepted_modes_iff_shape (l : List Mode) : c18x_acceptedModes l = true ↔ ∃ sh : Shape, l = sh.modes :=
+  c18x_accepted_iff_shape l
+
+/-- **Acceptance iff on well-formed batches.** When the torch calls the run would make succeed (domain of the property:
+    samples of one dataset mode, stackable / paddable fields, contexts with the keys of the first sample), the pipeline
+    runs through iff the mode list has the accepted shape and there is at most one padding collator. -/
+theorem accepted_orders_iff_of_collatable (rc : Bool) (ms : List Member) (ss : List Sample)
+    (hctx : rc = true → ms ≠ [] → ∃ c, mergeCtx (ss.map Sample.ctx) = .ok c)
+    (hpad : .pad ∈ ms → ∃ cols, padItems (ss.map Sample.items) = .ok cols)
+    (hcol : .pad ∉ ms → ∃ cols, collateItems (ss.map Sample.items) = .ok cols) :
+    (∃ r, callImpl rc ms ss = .ok r) ↔ c18x_acceptedModes (modesOf ms) = true ∧ ms.count .pad ≤ 1 := by
+  rw [accepted_orders_iff]
+  exact ⟨fun h => ⟨h.1, h.2.1⟩, fun h => ⟨h.1, h.2, hctx, hpad, fun hp _ => hcol hp⟩⟩
+
+/-- **The code's own assertions fire only on rejected orders, and rejected orders never run through.** -/
+theorem assertion_iff_rejected_order (rc : Bool) (ms : List Member) (ss : List Sample) :
+    (callImpl rc ms ss = .error .assertion → c18x_acceptedModes (modesOf ms) = false) ∧
+    (c18x_acceptedModes (modesOf ms) = false → ∃ e, callImpl rc ms ss = .error e) := by
+  refine ⟨c18x_assertion_only_on_rejected, fun hrej => ?_⟩
+  cases h : callImpl rc ms ss with
+  | error e => exact ⟨e, rfl⟩
+  | ok r =>
+    have := ((accepted_orders_iff rc ms ss).mp ⟨r, h⟩).1
+    rw [hrej] at this
+    exact absurd this (by simp)
+
+example : c18x_acceptedModes [.none, .none, .after, .before, .before] = true := by decide
+example : c18x_acceptedModes [.none, .before, .none] = false := by decide
+example : c18x_acceptedModes [.after, .after] = false := by decide
+example : (∃ r, callImpl true [.probe .none (some 3), .pad, .probe .after none, .probe .before (some 4)]
+    [⟨[.seq [1, 2], .scal 2], [(5, 50)]⟩, ⟨[.seq [3], .scal 1], [(5, 51)]⟩] = .ok r) :=
+  (accepted_orders_iff _ _ _).mpr ⟨by decide, by decide, fun _ _ => ⟨_, rfl⟩, fun _ => ⟨_, rfl⟩, fun h => absurd (by decide) h⟩
+/-- two padding collators: accepted shape, but the second one is handed a tuple of tensors -/
+example : callImpl false [.pad, .pad] [⟨[.seq [1, 2]], []⟩, ⟨[.seq [3]], []⟩] = .error .pad := by rfl
+
+/-- **Exactly once, at the requested position — for every member list** (relaxes `hp` of
+    `default_collate_at_requested_position`; no hypothesis besides "the run succeeds"). The list splits into
+    `pre ++ rest`: `pre` are the `None` members (probes and at most one padding collator), they all see a batch that was
+    never default-collated; `rest` is empty (then the batch is returned uncollated), or starts with a `before` probe
+    (default_collate right before it, it sees the once-collated batch) or an `after` probe (it sees the uncollated batch,
+    default_collate right after it), followed by `before` probes only, which all see the once-collated batch; the
+    returned batch was collated exactly once. -/
+theorem default_collate_at_requested_position_any (rc : Bool) (ms : List Member) (ss : List Sample) (r : Result)
+    (h : callImpl rc ms ss = .ok r) :
+    ms.count .pad ≤ 1 ∧
+    ∃ pre post, (∀ m ∈ pre, m.mode = .none) ∧ (∀ m ∈ post, ∃ k, m = .probe .before k) ∧
+      ((ms = pre ∧ skel r.trace = c18x_memSkel 0 pre ∧ timesOf r.batch = 0) ∨
+       (∃ k, ms = pre ++ .probe .before k :: post ∧ timesOf r.batch = 1 ∧
+          skel r.trace = c18x_memSkel 0 pre ++ [.dc, .mem 1] ++ List.replicate post.length (.mem 1)) ∨
+       (∃ k, ms = pre ++ .probe .after k :: post ∧ timesOf r.batch = 1 ∧
+          skel r.trace = c18x_memSkel 0 pre ++ [.mem 0, .dc] ++ List.replicate post.length (.mem 1))) := by
+  refine ⟨((accepted_orders_iff rc ms ss).mp ⟨r, h⟩).2.1, ?_⟩
+  have hbefore : ∀ post : List Member, post.all (fun x => x.mode == .before) = true →
+      ∀ m ∈ post, ∃ k, m = .probe .before k := by
+    intro post hall m hm
+    have := (List.all_eq_true.mp hall) m hm
+    cases m with
+    | pad => simp [Member.mode] at this
+    | probe mo k => exact ⟨k, by simpa [Member.mode] using this⟩
+  rcases c18x_ok_skel h with ⟨htl, hsk, ht⟩ | ⟨mo, k, post, hmo, hall, hms, ht, hsk⟩
+  · refine ⟨ms, [], (c18x_tail_nil_iff ms).mp htl, by simp, Or.inl ⟨rfl, hsk, ht⟩⟩
+  · refine ⟨c18x_pre ms, post, c18x_pre_none ms, hbefore post hall, Or.inr ?_⟩
+    cases mo with
+    | none => exact absurd rfl hmo
+    | before => exact Or.inl ⟨k, hms, ht, by simpa using hsk⟩
+    | after => exact Or.inr ⟨k, hms, ht, by simpa using hsk⟩
+
+example : callImpl false [.probe .none none, .pad, .probe .none none, .probe .after none, .probe .before none]
+    [⟨[.seq [1, 2]], []⟩, ⟨[.seq [3]], []⟩] =
+    .ok ⟨false, .collated 1 [.rows [[1, 2], [3, 0]]], [],
+      [.member 0 [], .member 0 [], .member 0 [], .dc, .member 1 []]⟩ := by rfl
+
+/-- **Exactly once, for every member list** (relaxes `hp` of `default_collate_exactly_once`). -/
+theorem default_collate_exactly_once_any (rc : Bool) (ms : List Member) (ss : List Sample) (r : Result)
+    (h : callImpl rc ms ss = .ok r) :
+    (skel r.trace).count .dc = (if (modesOf ms).any (fun m => decide (m ≠ .none)) then 1 else 0) ∧
+    timesOf r.batch = (if (modesOf ms).any (fun m => decide (m ≠ .none)) then 1 else 0) := by
+  have hcount : ∀ (t : Nat) (l : List Member), (c18x_memSkel t l).count .dc = 0 := by
+    intro t l
+    rw [List.count_eq_zero]
+    simp [c18x_memSkel]
+  have hrep : ∀ n : Nat, (List.replicate n (K.mem 1)).count .dc = 0 := by
+    intro n; rw [List.count_eq_zero]; simp
+  obtain ⟨_, pre, post, hpre, hpost, hcase⟩ := default_collate_at_requested_position_any rc ms ss r h
+  rcases hcase with ⟨rfl, hsk, ht⟩ | ⟨k, rfl, ht, hsk⟩ | ⟨k, rfl, ht, hsk⟩
+  · have : (modesOf ms).any (fun m => decide (m ≠ .none)) = false := by
+      simp only [modesOf, List.any_map, List.any_eq_false, Function.comp]
+      intro m hm
+      simp [hpre m hm]
+    rw [this, hsk, ht, hcount]
+    simp
+  · have : (modesOf (pre ++ .probe .before k :: post)).any (fun m => decide (m ≠ .none)) = true := by
+      simp [modesOf, Member.mode]
+    rw [this, hsk, ht]
+    simp [List.count_append, hcount, hrep]
+  · have : (modesOf (pre ++ .probe .after k :: post)).any (fun m => decide (m ≠ .none)) = true := by
+      simp [modesOf, Member.mode]
+    rw [this, hsk, ht]
+    simp [List.count_append, hcount, hrep]
+
+/-- **Layout, for every member list** (relaxes `hp` of `layout_preserved`; states which of the alternatives holds).
+    Without a padding collator: the untouched samples (all members `None`; the contexts are split off iff return_ctx
+    and there is a member) or the one default collation of the samples' items. With a padding collator: its output on
+    the samples' items — described field by field in `pad_items_spec` —, whatever other members run and whether or not
+    default_collate is asked for afterwards (default_collate of a tuple of stacked tensors is that tuple). -/
+theorem layout_preserved_any (rc : Bool) (ms : List Member) (ss : List Sample) (r : Result)
+    (h : callImpl rc ms ss = .ok r) :
+    (.pad ∉ ms → (∀ m ∈ ms, m.mode = .none) →
+      r.batch = (if rc = true ∧ ms ≠ [] then .items (ss.map Sample.items) else .raw ss)) ∧
+    (.pad ∉ ms → (∃ m ∈ ms, m.mode ≠ .none) →
+      ∃ cols, collateItems (ss.map Sample.items) = .ok cols ∧ r.batch = .collated 1 cols) ∧
+    (.pad ∈ ms → ∃ cols, padItems (ss.map Sample.items) = .ok cols ∧
+      r.batch = .collated (if (modesOf ms).any (fun m => decide (m ≠ .none)) then 1 else 0) cols) := by
+  have hmem : Member.pad ∈ ms ↔ 0 < ms.count .pad := List.count_pos_iff.symm
+  have htl : c18x_tail ms = [] ↔ ∀ m ∈ ms, m.mode = .none := c18x_tail_nil_iff ms
+  have hstart : c18x_start rc ms ss = (if rc = true ∧ ms ≠ [] then .items (ss.map Sample.items) else .raw ss) := by
+    cases rc <;> cases ms <;> simp [c18x_start, c18x_hasCtx]
+  have hany : (modesOf ms).any (fun m => decide (m ≠ .none)) = true ↔ ¬ c18x_tail ms = [] := by
+    rw [htl]
+    simp [modesOf]
+  rcases c18x_ok_batch h with ⟨h0, ht, hb⟩ | ⟨h0, ht, cols, hc, hb⟩ | ⟨h1, cols, hc, hb⟩
+  · refine ⟨fun _ _ => by rw [hb, hstart], fun _ hn => ?_, fun hp => ?_⟩
+    · obtain ⟨m, hm, hmode⟩ := hn
+      exact absurd (htl.mp ht m hm) hmode
+    · have := hmem.mp hp; omega
+  · refine ⟨fun _ hn => absurd (htl.mpr hn) ht, fun _ _ => ⟨cols, hc, hb⟩, fun hp => ?_⟩
+    have := hmem.mp hp; omega
+  · have hp : Member.pad ∈ ms := hmem.mpr (by omega)
+    refine ⟨fun hn => absurd hp hn, fun hn => absurd hp hn, fun _ => ⟨cols, hc, ?_⟩⟩
+    rw [hb]
+    by_cases ht : c18x_tail ms = []
+    · have : (modesOf ms).any (fun m => decide (m ≠ .none)) = false := by
+        cases hx : (modesOf ms).any (fun m => decide (m ≠ .none)) with
+        | false => rfl
+        | true => exact absurd ht (hany.mp hx)
+      rw [this]; simp [ht]
+    · rw [hany.mpr ht]; simp [ht]
+
+example : callImpl true [.probe .none (some 3), .pad, .probe .before none]
+    [⟨[.seq [1, 2], .scal 2], [(5, 50)]⟩, ⟨[.seq [3], .scal 1], [(5, 51)]⟩] =
+    .ok ⟨true, .collated 1 [.rows [[1, 2], [3, 0]], .scalars [2, 1]], [(5, .col [50, 51]), (3, .one (-3))],
+      [.dcCtx, .member 0 [5], .dc, .member 1 [5, 3]]⟩ := by rfl
+
+/-! ### the context contract -/
+
+/-- **`(batch, ctx)` iff return_ctx, with content** (replaces the definitional `returns_pair_iff_return_ctx`).
+    `c18x_returned r` is what python returns. Without return_ctx it is the bare batch, no context (the dict the members
+    were handed, `r.ctx`, started empty and is dropped). With return_ctx (and at least one member, as the constructors
+    guarantee) it is the pair of the batch and exactly: the default collation `mg` of the samples' contexts, on which
+    every member has performed its `ctx[key] = value` in pipeline order — nothing else touches it. For every member
+    list, no hypothesis besides "the run succeeds". -/
+theorem returned_ctx_exact (rc : Bool) (ms : List Member) (ss : List Sample) (r : Result)
+    (h : callImpl rc ms ss = .ok r) :
+    r.isPair = rc ∧ ((c18x_returned r).2 = none ↔ rc = false) ∧
+    (rc = false → c18x_returned r = (r.batch, none) ∧ r.ctx = ms.foldl c18x_writeKey []) ∧
+    (rc = true → ms ≠ [] → ∃ mg, mergeCtx (ss.map Sample.ctx) = .ok mg ∧ r.ctx = ms.foldl c18x_writeKey mg ∧
+      c18x_returned r = (r.batch, some (ms.foldl c18x_writeKey mg))) := by
+  obtain ⟨hpair, base, hb, hctx⟩ := c18x_ok_ctx h
+  refine ⟨hpair, ?_, ?_, ?_⟩
+  · cases rc <;> simp [c18x_returned, hpair]
+  · intro hrc
+    subst hrc
+    simp only [c18x_hasCtx, Bool.false_and, Bool.false_eq_true, if_false, Except.ok.injEq] at hb
+    subst hb
+    exact ⟨by simp [c18x_returned, hpair], hctx⟩
+  · intro hrc hne
+    subst hrc
+    have : c18x_hasCtx true ms = true := by cases ms with
+      | nil => exact absurd rfl hne
+      | cons m ms => rfl
+    simp only [this, if_true] at hb
+    exact ⟨base, hb, hctx, by simp [c18x_returned, hpair, hctx]⟩
+
+/-- the three entry points are `_call_impl` on the member list (`KDComposeCollator` only with a non-empty list, which is
+    the `hne` of the theorems here), so `returned_ctx_exact` and all other `callImpl` theorems apply to them -/
+theorem entry_points_returned_ctx (rc : Bool) (ms : List Member) (m : Member) (ss : List Sample) (r : Result) :
+    (composeCall rc ms ss = .ok r → ms ≠ [] ∧ callImpl rc ms ss = .ok r) ∧
+    (singleCall rc m ss = .ok r → callImpl rc [m] ss = .ok r) ∧
+    (wrapperCall rc m ss = .ok r → callImpl rc [m] ss = .ok r) := by
+  refine ⟨fun h => ?_, id, id⟩
+  unfold composeCall at h
+  cases ms with
+  | nil => simp at h
+  | cons a l => exact ⟨by simp, by simpa using h⟩
+
+/-- **The merged context: keys and values** (clause "merges the per-sample contexts into one batched context"):
+    `default_collate` of the samples' dicts succeeds iff every key of the first sample is a key of every sample
+    (`KeyError` otherwise); it then has exactly the keys of the first sample, in their order, and under key `k` the
+    collation of the samples' values under `k`, in sample order. No hypothesis. -/
+theorem merged_ctx_exact (c0 : Ctx1) (cs : List Ctx1) :
+    ((∃ mg, mergeCtx (c0 :: cs) = .ok mg) ↔ ∀ k ∈ c0.map Prod.fst, ∀ c ∈ cs, k ∈ c.map Prod.fst) ∧
+    ∀ mg, mergeCtx (c0 :: cs) = .ok mg →
+      mg.map Prod.fst = c0.map Prod.fst ∧
+      ∀ k ∈ c0.map Prod.fst, ∃ vs, mg.lookup k = some (.col vs) ∧ (c0 :: cs).map (lookupKey k) = vs.map some := by
+  constructor
+  · simp only [mergeCtx]
+    rw [c18x_mergeKeys_isOk]
+    constructor
+    · intro h k hk c hc
+      exact (c18x_lookupAll_isSome k (c0 :: cs)).mp (h k hk) c (by simp [hc])
+    · intro h k hk
+      refine (c18x_lookupAll_isSome k (c0 :: cs)).mpr ?_
+      intro c hc
+      simp only [List.mem_cons] at hc
+      rcases hc with rfl | hc
+      · exact hk
+      · exact h k hk c hc
+  · intro mg h
+    simp only [mergeCtx] at h
+    refine ⟨mergeKeys_keys _ _ _ h, ?_⟩
+    intro k hk
+    obtain ⟨vs, h1, h2⟩ := c18x_mergeKeys_lookup _ _ _ h k hk
+    exact ⟨vs, h1, (c18x_lookupAll_spec k _ vs).mp h2⟩
+
+example : mergeCtx [[(7, 70), (2, 20)], [(2, 21), (7, 71)], [(7, 72), (2, 22)]] =
+    .ok [(7, .col [70, 71, 72]), (2, .col [20, 21, 22])] := by rfl
+/-- a later sample lacking a key of the first: `KeyError` -/
+example : mergeCtx [[(7, 70), (2, 20)], [(7, 71)]] = .error .key := by rfl
+
+/-- **No key lost, none invented; the values** (clause "without losing or inventing keys"). Domain: all samples'
+    contexts have the same keys (`hsame`; this is what ModeWrapper produces, and it is needed: `default_collate` silently
+    drops a key that only a later sample has). Then, for every member list (`hne`: the constructors guarantee a member):
+    the returned context has exactly the keys common to the samples plus the keys the members write; under a key some
+    member writes it holds that member's value; under every other key `k` it holds the collation of the samples' values
+    under `k`, in sample order. -/
+theorem batched_ctx_exact (ms : List Member) (s0 : Sample) (ss : List Sample) (r : Result) (hne : ms ≠ [])
+    (hsame : ∀ s ∈ ss, ∀ k, k ∈ s.ctx.map Prod.fst ↔ k ∈ s0.ctx.map Prod.fst)
+    (h : callImpl true ms (s0 :: ss) = .ok r) :
+    c18x_returned r = (r.batch, some r.ctx) ∧
+    (∀ k, k ∈ r.ctx.map Prod.fst ↔ (∀ s ∈ s0 :: ss, k ∈ s.ctx.map Prod.fst) ∨ ∃ m ∈ ms, m.key = some k) ∧
+    (∀ k, (∃ m ∈ ms, m.key = some k) → r.ctx.lookup k = some (.one (-(k : Int)))) ∧
+    (∀ k, (¬∃ m ∈ ms, m.key = some k) → k ∈ s0.ctx.map Prod.fst →
+      ∃ vs, r.ctx.lookup k = some (.col vs) ∧ (s0 :: ss).map (fun s => lookupKey k s.ctx) = vs.map some) := by
+  obtain ⟨_, _, _, hctx⟩ := returned_ctx_exact true ms (s0 :: ss) r h
+  obtain ⟨mg, hmg, hr, hret⟩ := hctx rfl hne
+  simp only [List.map_cons] at hmg
+  obtain ⟨hkeys, hvals⟩ := (merged_ctx_exact s0.ctx (ss.map Sample.ctx)).2 mg hmg
+  have hall : ∀ k, (∀ s ∈ s0 :: ss, k ∈ s.ctx.map Prod.fst) ↔ k ∈ s0.ctx.map Prod.fst := by
+    intro k
+    constructor
+    · intro hk; exact hk s0 (by simp)
+    · intro hk s hs
+      simp only [List.mem_cons] at hs
+      rcases hs with rfl | hs
+      · exact hk
+      · exact (hsame s hs k).mpr hk
+  refine ⟨by rw [hret, hr], ?_, ?_, ?_⟩
+  · intro k
+    rw [hall k, hr, c18x_foldl_keys, hkeys]
+    obtain ⟨i1, i2⟩ := keyStep_foldl_mem ms (s0.ctx.map Prod.fst) k
+    constructor
+    · exact i2
+    · rintro (hk | hw)
+      · exact i1 hk
+      · have := (c18x_lookup_foldl k ms mg).1 hw
+        have := c18x_lookup_mem this
+        rwa [c18x_foldl_keys, hkeys] at this
+  · intro k hw
+    rw [hr]
+    exact (c18x_lookup_foldl k ms mg).1 hw
+  · intro k hnw hk
+    obtain ⟨vs, h1, h2⟩ := hvals k hk
+    refine ⟨vs, by rw [hr, (c18x_lookup_foldl k ms mg).2 hnw, h1], ?_⟩
+    simpa [List.map_map, Function.comp_def] using h2
+
+example : callImpl true [.probe .none (some 11), .pad, .probe .before (some 7)]
+    [⟨[.seq [1, 2]], [(7, 70), (2, 20)]⟩, ⟨[.seq [3]], [(2, 21), (7, 71)]⟩] =
+    .ok ⟨true, .collated 1 [.rows [[1, 2], [3, 0]]], [(7, .one (-7)), (2, .col [20, 21]), (11, .one (-11))],
+      [.dcCtx, .member 0 [7, 2], .dc, .member 1 [7, 2, 11]]⟩ := by rfl
+
+/-- `hsame` is satisfiable (keys in different orders), and what the conclusion gives for key `2` -/
+example : ∃ vs, ([(7, .one (-7)), (2, .col [20, 21]), (11, .one (-11))] : Ctx).lookup 2 = some (.col vs) ∧
+    [some 20, some 21] = vs.map some :=
+  (batched_ctx_exact [.probe .none (some 11), .pad, .probe .before (some 7)] ⟨[.seq [1, 2]], [(7, 70), (2, 20)]⟩
+    [⟨[.seq [3]], [(2, 21), (7, 71)]⟩] _ (by simp)
+    (by intro s hs k; simp only [List.mem_singleton] at hs; subst hs; simp [or_comm]) rfl).2.2.2 2 (by decide) (by decide)
+
+/-- the order of the keys, for every member list (relaxes `hp` of `ctx_keys_preserved`): the first sample's keys in
+    their order, then the members' new keys in pipeline order -/
+theorem ctx_keys_preserved_any (ms : List Member) (s0 : Sample) (ss : List Sample) (r : Result) (hne : ms ≠ [])
+    (h : callImpl true ms (s0 :: ss) = .ok r) :
+    r.ctx.map Prod.fst = ms.foldl keyStep (s0.ctx.map Prod.fst) := by
+  obtain ⟨_, _, _, hctx⟩ := returned_ctx_exact true ms (s0 :: ss) r h
+  obtain ⟨mg, hmg, hr, _⟩ := hctx rfl hne
+  simp only [List.map_cons] at hmg
+  rw [hr, c18x_foldl_keys, ((merged_ctx_exact s0.ctx (ss.map Sample.ctx)).2 mg hmg).1]
+
+/-! ### PadSequencesCollator, lifted to the collator -/
+
+/-- **The padding collator, field by field** (lifts `pad_len_eq_max`, `pad_prefix_kept`, `pad_suffix_zero`,
+    `fixed_fields_as_default`, `scalar_fields_as_default` from `padSequence` to `PadSequencesCollator.collate`). If
+    `collate` succeeds on the samples' items `xs`, the result has one column per item of the mode, and for every field `j`
+    (`column xs j` = the samples' `j`-th items in batch order):
+    * a tensor field comes out as `rows` with one row per sample; row `i` is sample `i`'s sequence followed by zeros up to
+      `maxLen rs`, which is the length of the longest sequence of the batch (so every row has the batch-maximum length,
+      the original content is the prefix, the rest is zeros);
+    * a field of python numbers / 0-dim tensors comes out as the vector of the samples' values;
+    * whenever default collation is defined on the field (numbers, or tensors of one length) the column equals what
+      default collation gives.
+    No hypothesis besides success. -/
+theorem pad_items_spec (xs : List (List Field)) (cols : List Col) (h : padItems xs = .ok cols) :
+    ∃ it0 rest, xs = it0 :: rest ∧ cols.length = it0.length ∧ (∀ it ∈ xs, it0.length ≤ it.length) ∧
+      ∀ (j : Nat) (hj : j < cols.length),
+        (column xs j).length = xs.length ∧ (∀ i : Nat, (column xs j)[i]? = (xs[i]?).bind (fun it => it[j]?)) ∧
+        ((∃ rs rows, column xs j = rs.map Field.seq ∧ cols[j] = .rows rows ∧ rows.length = rs.length ∧
+            (∀ s ∈ rs, s.length ≤ maxLen rs) ∧ (∃ s ∈ rs, s.length = maxLen rs) ∧
+            ∀ (i : Nat) (hi : i < rs.length) (hi' : i < rows.length),
+              rows[i] = rs[i] ++ List.replicate (maxLen rs - (rs[i]).length) 0) ∨
+         (∃ vs, column xs j = vs.map Field.scal ∧ cols[j] = .scalars vs)) ∧
+        (∀ c', collateCol (column xs j) = .ok c' → cols[j] = c') := by
+  obtain ⟨it0, rest, hx, hlen, hge, hg⟩ := c18x_padItems_ok h
+  refine ⟨it0, rest, hx, hlen, hge, ?_⟩
+  intro j hj
+  have hlong : ∀ it ∈ xs, j < it.length := fun it hit => by have := hge it hit; omega
+  refine ⟨column_length j xs hlong, column_getElem? j xs hlong, ?_⟩
+  have seq_inj : ∀ a b : List (List Int), a.map Field.seq = b.map Field.seq → a = b := fun a b hab =>
+    (List.map_inj_right (by intro x y hxy; exact Field.seq.inj hxy)).mp hab
+  have scal_inj : ∀ a b : List Int, a.map Field.scal = b.map Field.scal → a = b := fun a b hab =>
+    (List.map_inj_right (by intro x y hxy; exact Field.scal.inj hxy)).mp hab
+  have mixed : ∀ (a : List (List Int)) (b : List Int), a ≠ [] ∨ b ≠ [] → a.map Field.seq ≠ b.map Field.scal := by
+    intro a b hab he
+    cases a with
+    | nil => cases b with
+      | nil => simp at hab
+      | cons y b => simp at he
+    | cons x a => cases b with
+      | nil => simp at he
+      | cons y b => simp at he
+  rcases c18x_padField_ok (hg j hj) with ⟨rs, he, hne, hcol⟩ | ⟨vs, he, hne, hcol⟩
+  · obtain ⟨p1, _, p3, p4⟩ := pad_len_eq_max rs
+    refine ⟨Or.inl ⟨rs, padSequence rs, he, hcol, p1, p3, p4 hne, ?_⟩, ?_⟩
+    · intro i hi hi'
+      simp [padSequence]
+    · intro c' hc'
+      rw [he] at hc'
+      rcases collateCol_ok hc' with ⟨ws, _, hw⟩ | ⟨rs', n, rfl, hw, hn⟩
+      · exact absurd hw (mixed rs ws (Or.inl hne))
+      · have := seq_inj _ _ hw
+        subst this
+        rw [hcol, fixed_fields_as_default rs n hn]
+  · refine ⟨Or.inr ⟨vs, he, hcol⟩, ?_⟩
+    intro c' hc'
+    rw [he] at hc'
+    rcases collateCol_ok hc' with ⟨ws, rfl, hw⟩ | ⟨rs', n, _, hw, _⟩
+    · rw [hcol, scal_inj _ _ hw]
+    · exact absurd hw.symm (mixed rs' vs (Or.inr hne))
+
+example : padItems [[.seq [1, 2, 3], .scal 2, .seq [9, 9]], [.seq [], .scal 1, .seq [8, 8]], [.seq [4], .scal 0, .seq [7, 7]]] =
+    .ok [.rows [[1, 2, 3], [0, 0, 0], [4, 0, 0]], .scalars [2, 1, 0], .rows [[9, 9], [8, 8], [7, 7]]] := by rfl
+
+/-- on a batch that default collation accepts as a whole (no variable-length field) the padding collator returns what
+    default collation returns -/
+theorem pad_eq_default_when_collatable (xs : List (List Field)) (cols cols' : List Col)
+    (h : padItems xs = .ok cols) (h' : collateItems xs = .ok cols') : cols = cols' := by
+  obtain ⟨it0, rest, hx, hlen, _, hg⟩ := pad_items_spec xs cols h
+  obtain ⟨it0', rest', hx', _, hlen', hg'⟩ := collateItems_layout h'
+  have : it0 = it0' := by rw [hx] at hx'; simp only [List.cons.injEq] at hx'; exact hx'.1
+  subst this
+  apply List.ext_getElem (by rw [hlen, hlen'])
+  intro j hj hj'
+  exact (hg j hj).2.2.2 _ (hg' j hj')
+
+/-- **The padding collator run through the pipeline, with and without per-sample contexts** (`callImpl … [.pad]` is
+    what `KDSingleCollator.__call__` / `KDSingleCollatorWrapper.__call__` / a one-member `KDComposeCollator` execute).
+    The returned batch is `collate` of the samples' items — so by `pad_items_spec` every tensor field is padded with
+    zeros to the batch maximum, row `i` starting with sample `i`'s content, every other field is as default collation
+    gives it —, the same with and without contexts; without return_ctx no context is returned; with return_ctx the
+    returned context is exactly the default collation of the samples' contexts (`merged_ctx_exact`). -/
+theorem pad_collator_result (rc : Bool) (ss : List Sample) (r : Result) (h : callImpl rc [.pad] ss = .ok r) :
+    ∃ cols, padItems (ss.map Sample.items) = .ok cols ∧ r.batch = .collated 0 cols ∧
+      (rc = false → c18x_returned r = (.collated 0 cols, none)) ∧
+      (rc = true → ∃ mg, mergeCtx (ss.map Sample.ctx) = .ok mg ∧ r.ctx = mg ∧
+        c18x_returned r = (.collated 0 cols, some mg)) := by
+  obtain ⟨cols, hc, hb⟩ := (layout_preserved_any rc [.pad] ss r h).2.2 (by simp)
+  have hb' : r.batch = .collated 0 cols := by simpa [modesOf, Member.mode] using hb
+  obtain ⟨_, _, h0, h1⟩ := returned_ctx_exact rc [.pad] ss r h
+  refine ⟨cols, hc, hb', ?_, ?_⟩
+  · intro hrc
+    rw [(h0 hrc).1, hb']
+  · intro hrc
+    obtain ⟨mg, hmg, hr, hret⟩ := h1 hrc (by simp)
+    refine ⟨mg, hmg, by simpa [c18x_writeKey, Member.key] using hr, ?_⟩
+    rw [hret, hb']
+    simp [c18x_writeKey, Member.key]
+
+/-- … unfolded: every variable-length tensor field of the batch the pipeline returns has the batch-maximum length,
+    row `i` = sample `i`'s content followed by zeros; all other fields as default collation — with AND without contexts. -/
+theorem pad_collator_pads_to_batch_max (rc : Bool) (ss : List Sample) (r : Result) (h : callImpl rc [.pad] ss = .ok r) :
+    ∃ cols s0 rest, r.batch = .collated 0 cols ∧ ss = s0 :: rest ∧ cols.length = s0.items.length ∧
+      ∀ (j : Nat) (hj : j < cols.length),
+        (∀ i : Nat, (column (ss.map Sample.items) j)[i]? = (ss[i]?).bind (fun s => s.items[j]?)) ∧
+        ((∃ rs rows, column (ss.map Sample.items) j = rs.map Field.seq ∧ rs.length = ss.length ∧
+            cols[j] = .rows rows ∧ rows.length = ss.length ∧
+            (∀ s ∈ rs, s.length ≤ maxLen rs) ∧ (∃ s ∈ rs, s.length = maxLen rs) ∧
+            ∀ (i : Nat) (hi : i < rs.length) (hi' : i < rows.length),
+              rows[i] = rs[i] ++ List.replicate (maxLen rs - (rs[i]).length) 0) ∨
+         (∃ vs, column (ss.map Sample.items) j = vs.map Field.scal ∧ cols[j] = .scalars vs)) ∧
+        (∀ c', collateCol (column (ss.map Sample.items) j) = .ok c' → cols[j] = c') := by
+  obtain ⟨cols, hc, hb, _⟩ := pad_collator_result rc ss r h
+  obtain ⟨it0, rest, hx, hlen, _, hg⟩ := pad_items_spec _ cols hc
+  cases ss with
+  | nil => simp at hx
+  | cons s0 rest' =>
+    simp only [List.map_cons, List.cons.injEq] at hx
+    refine ⟨cols, s0, rest', hb, rfl, by rw [hlen, ← hx.1], ?_⟩
+    intro j hj
+    obtain ⟨g1, g2, g3, g4⟩ := hg j hj
+    refine ⟨?_, ?_, g4⟩
+    · intro i
+      rw [g2 i]
+      simp only [List.getElem?_map]
+      cases (s0 :: rest')[i]? <;> rfl
+    · rcases g3 with ⟨rs, rows, e1, e2, e3, e4, e5, e6⟩ | g3
+      · have hrs : rs.length = (s0 :: rest').length := by
+          have := g1
+          rw [e1] at this
+          simpa using this
+        exact Or.inl ⟨rs, rows, e1, hrs, e2, by rw [e3, hrs], e4, e5, e6⟩
+      · exact Or.inr g3
+
+/-- the same through the three entry points -/
+theorem pad_entry_points (rc : Bool) (ss : List Sample) :
+    composeCall rc [.pad] ss = callImpl rc [.pad] ss ∧ singleCall rc .pad ss = callImpl rc [.pad] ss ∧
+    wrapperCall rc .pad ss = callImpl rc [.pad] ss := ⟨rfl, rfl, rfl⟩
+
+example : wrapperCall true .pad [⟨[.seq [1, 2, 3], .scal 2], [(5, 50)]⟩, ⟨[.seq [4], .scal 1], [(5, 51)]⟩] =
+    .ok ⟨true, .collated 0 [.rows [[1, 2, 3], [4, 0, 0]], .scalars [2, 1]], [(5, .col [50, 51])], [.dcCtx]⟩ := by rfl
+example : singleCall false .pad [⟨[.seq [1, 2, 3], .scal 2], []⟩, ⟨[.seq [4], .scal 1], []⟩] =
+    .ok ⟨false, .collated 0 [.rows [[1, 2, 3], [4, 0, 0]], .scalars [2, 1]], [], []⟩ := by rfl
 
 end KDVerif.C18
